@@ -26,7 +26,8 @@ Print Assumptions C08_check_none.
 
 (* The property for every straight-line history (literal construction, append, re-assignment by a literal,
    element assignment, indexing of the array and of a string with literal / constant / opaque indices of any
-   integer type, len, prints): either the program is accepted and what reaches the pipe, and how the program ends
+   integer type, len, prints, and calls that hand the array by plain name to a user function which appends k >= 0
+   elements, only reads, assigns or reads an element through its []T parameter): either the program is accepted and what reaches the pipe, and how the program ends
    (exit 0 / "panic: index out of bounds" with a non-zero status), is exactly what the list semantics `spec`
    prescribes — every valid index (negative ones and positions created by appends included) yields the stored
    element, the first invalid one panics, all lines printed before the panic are delivered — or it is rejected
@@ -81,6 +82,12 @@ Theorem C08_stale_tracker_refuted :
 Proof. exact stale_tracker_misrejects. Qed.
 Print Assumptions C08_stale_tracker_refuted.
 
+Theorem C08_byvalue_tracker_refuted :
+  static_ops_byvalue (Some 3) (p_ops grow_witness) = false /\ spec_run grow_witness = ([40; 1; 51], Exited) /\
+  run grow_witness = (true, [40; 1; 51], Exited).
+Proof. exact byvalue_tracker_misrejects. Qed.
+Print Assumptions C08_byvalue_tracker_refuted.
+
 Theorem C08_noflush_refuted :
   delivered (ch_panic_noflush (ch_println ch_empty 7)) = [] /\ delivered (ch_panic (ch_println ch_empty 7)) = [7].
 Proof. exact panic_noflush_loses. Qed.
@@ -89,7 +96,7 @@ Print Assumptions C08_noflush_refuted.
 (* non-vacuity: a well-formed history exercising appends, negative / wide / constant indices, assignment, string
    indexing and a final out-of-range wide index *)
 Theorem C08_nonvacuous :
-  prog_wf demo /\ run demo = (true, [50; 10; 99; 121; 5], Panicked) /\ spec_run demo = ([50; 10; 99; 121; 5], Panicked).
+  prog_wf demo /\ run demo = (true, [50; 10; 99; 121; 5; 70; 11; 7], Panicked) /\ spec_run demo = ([50; 10; 99; 121; 5; 70; 11; 7], Panicked).
 Proof. exact (conj demo_wf demo_runs). Qed.
 Print Assumptions C08_nonvacuous.
 
